@@ -20,6 +20,9 @@ CLAIMED = {
  "C05": dict(tech="per-call monitor on every Distribution.cdf/icdf/pdf vs independent reference formulas + relation checks",
     text="Every cdf/icdf/pdf call of every family (direct, with explicit parameters, nested) is compared with the documented formula evaluated by an independent reference; monotonicity, range, round trips, derivative, explicit==instance (bitwise) and array_like forms are judged on generated parameter vectors over several orders of magnitude.",
     note="trusted: numpy, scipy.special, refmodel.py (selftest/ref_audit.py cross-checks it against scipy.stats called directly); von Mises compared for kappa<50 on [mu-pi,mu+pi]"),
+ "C06": dict(tech="postcondition monitor on GlobalHierarchicalModel.pdf (product of reference conditional densities) + reference nested-quadrature oracles for cdf / marginals + DKW band for Monte-Carlo quantiles",
+    text="For 2-D/3-D specs over non-negative families and every dependence structure: each outermost joint-pdf call (float/int arrays, lists, tuples, row vectors) is compared with the product of reference conditional densities; cdf, marginal_pdf and marginal_cdf of conditional variables are compared with nested 1-D quadrature of reference cdfs/densities over the ancestors (another route than virocon's nquad); marginal_icdf must be exact for unconditional variables and within the DKW band of its documented sample size for conditional ones.",
+    note="trusted: refmodel.py, scipy.integrate.quad (1e-6 abs + error estimates); non-negative families (the code integrates from 0); 3-D cdf only in the thorough tier (about 150 s per point)"),
  "C07": dict(tech="offline distribution-free (DKW / Naaman) checkers over recorded draw_sample outputs + bitwise reproducibility checks + conditional-distribution monitor",
     text="Samples of every family and of generated 2-D/3-D models (all structures) are drawn with None/int/Generator seeds (seed 0 included) and judged against the reference cdf (KS <= DKW bound at 1e-12), per component, per conditioning bin and jointly on the Rosenblatt image; equal seeds must reproduce bitwise, different seeds must differ; shapes (n,), (n,len), (n,n_dim).",
     note="trusted: DKW-Massart and Naaman inequalities (error probability 1e-12 per comparison), reference cdfs, numpy"),
@@ -47,6 +50,9 @@ CLAIMED = {
  "C10": dict(tech="postcondition monitor on IntervalSlicer.slice_ over an exhaustively driven edge lattice + random long vectors",
     text="All data vectors up to length 4 (quick) / 5 (thorough) over the half-width lattice for five widths, in every order, times the listed slicer configurations, plus random long rounded vectors: each slice_ call is judged by a monitor (exactly-one membership in the covered range, alignment, boundaries, references, dropped set, RuntimeError rule).",
     note="trusted: numpy comparisons; 'before dropping' is observed by re-running the same configuration with min_n_points=min_n_intervals=0"),
+ "C16": dict(tech="exact-law oracles (closed-form conditional of the Hs-steepness structure, quadrature) over recorded Monte-Carlo samples with DKW bands; guarded probe of the rejection sampler's support search; bitwise reproducibility",
+    text="Shipped transformations are round-tripped on (1e-3,1e2)^2 and the predefined Jacobians compared with numerical ones; TransformedModel.pdf/cdf/empirical_cdf/draw_sample are compared with the exact push-forward of the reference density; conditional_sample/cdf/icdf are judged against the exact conditional law for conditioning values from the 1e-6 to the 1-1e-8 quantile; every point of transformed IFORM contours is judged against the exact Rosenblatt image within the DKW band of the documented sample size, and equal random_state must reproduce the contour bitwise.",
+    note="trusted: refmodel.py, quad, DKW/Naaman at 1e-12; the probe only attributes truncation to the support search; open known finding (support search thresholds the joint density)"),
  "C17": dict(tech="postcondition monitors on calculate_design_conditions and intersection (all bindings) vs brute-force segment arithmetic",
     text="For IFORM/ISORM/direct-sampling contours of random models and random convex/star-shaped polygons (negative ordinates, several crossings), all steps forms (None, int, float/int lists, ranges, arrays, outside the range) and both swap_axis values, every returned design condition must be a requested crossing abscissa with the largest brute-force ordinate; intersection() must return exactly the brute-force crossings of random polyline pairs.",
     note="trusted: the harness's own segment arithmetic; general position enforced by the generator; tolerance 1e-9*scale"),
@@ -86,7 +92,7 @@ def main():
                 "technique": "runtime monitoring: " + c["tech"],
             })
         else:
-            na.append({"property_id": pid, "reason": "check under construction in this session; will move to 'checks' when its monitor is running"})
+            na.append({"property_id": pid, "reason": "no sound runtime-monitoring check could be built for this property (see DESIGN.md section 5)"})
     m = {
         "version": 1,
         "setup_cmd": "./setup.sh",
